@@ -7,8 +7,11 @@
    log field is the in-order concatenation of the run (up to max_event_size; a line may additionally be
    cut into several events at split_event_size).
 
-   A fragment is [k, fin]: k = "e" (empty), "o" (one character), "l" (long, 4 characters);
-   fin = TRUE adds the escaped newline (2 bytes).  Sizes are counted on the ESCAPED content, as the
+   A fragment is [k, fin]: k = "e" (empty), "o" (one character), "l" (long, 4 characters), and three
+   escape-relevant endings: "b" (a character and a literal backslash, escaped x\\ = 3 bytes), "n" (a character,
+   a literal backslash and the letter n, escaped x\\n = 4 bytes -- NOT a line end), "q" (a character and a
+   quote, escaped x\" = 3 bytes).  fin = TRUE means the DECODED text ends with a real newline (the final
+   chunk of the line); it adds the escaped newline (2 bytes).  Sizes are counted on the ESCAPED content, as the
    code does (it concatenates escaped strings).  The code's eventBuf starts with the opening quote
    (length 1); a fragment rendered by AppendEscapedString has its content plus 2 quotes.
    event.Size of a fragment is ELen + 1 here (the harness sets event.Size accordingly); SP is
@@ -19,13 +22,17 @@
      D16_TimeoutDropsPartials    : on a stream time-out the buffered chunks are thrown away (resetLogBuf,
                                    ActionDiscard; see the todo in the code) instead of being flushed.
      D17_SkipSurvivesTimeout     : resetLogBuf does not clear skipNextEvent, so after a time-out inside an
-                                   oversize line the NEXT line is discarded (or cut) as well. *)
+                                   oversize line the NEXT line is discarded (or cut) as well.
+     D20_BackslashNIsEnd         : the end-of-line test looks at the last two ESCAPED bytes; a partial chunk whose
+                                   text ends with a literal backslash followed by the letter n (escaped \\n)
+                                   is taken for the final chunk, so the line is cut in two events there. *)
 EXTENDS Integers, Sequences, FiniteSets, TLC, Json
 
 CONSTANTS MaxLen,          \* maximal number of fragments
           Ls,              \* candidate max_event_size values (0 = unlimited, otherwise >= 4)
           SPs,             \* candidate split thresholds (0 = never split); only combined with L = 0
-          D12_EmptyLogPanics, D16_TimeoutDropsPartials, D17_SkipSurvivesTimeout
+          MaxExotic,       \* at most that many fragments with an escape-relevant ending (b, n, q) per case
+          D12_EmptyLogPanics, D16_TimeoutDropsPartials, D17_SkipSurvivesTimeout, D20_BackslashNIsEnd
 
 ASSUME \A L \in Ls : L = 0 \/ L >= 4     \* below that the cut-off slice itself is out of range; the pipeline
                                           \* never lets an event larger than max_event_size in anyway
@@ -39,8 +46,9 @@ VARIABLES cs,              \* the case: [seq, L, cut, SP]
 
 vars == <<cs, i, to, eventBuf, eventSize, skipNext, cutOff, blocked, out, dev, pc>>
 
-Kinds == {"e", "o", "l"}
-CLen(k) == IF k = "e" THEN 0 ELSE IF k = "o" THEN 1 ELSE 4
+Kinds == {"e", "o", "l", "b", "n", "q"}
+Exotic == {"b", "n", "q"}
+CLen(k) == CASE k = "e" -> 0 [] k = "o" -> 1 [] k = "l" -> 4 [] k = "b" -> 3 [] k = "n" -> 4 [] k = "q" -> 3
 ELen(f) == CLen(f.k) + (IF f.fin THEN 2 ELSE 0)
 Size(f) == ELen(f) + 1
 Frags == [k : Kinds, fin : BOOLEAN]
@@ -127,6 +135,7 @@ Init ==
   /\ \E seq \in SeqsOver(Frags, MaxLen) : \E L \in Ls : \E SP \in SPs :
        \E cut \in (IF L = 0 THEN {FALSE} ELSE BOOLEAN) :
          /\ SP # 0 => L = 0
+         /\ Cardinality({k \in 1..Len(seq) : seq[k].k \in Exotic}) <= MaxExotic
          /\ cs = [seq |-> seq, L |-> L, cut |-> cut, SP |-> SP]
   /\ i = 0 /\ to = {}
   /\ eventBuf = <<>> /\ eventSize = 0 /\ skipNext = FALSE /\ cutOff = FALSE
@@ -137,7 +146,10 @@ F0 == cs.seq[i + 1]
 K == i + 1
 Size1 == eventSize + Size(F0)                                  \* p.eventSize += event.Size
 ShouldSplit == cs.SP # 0 /\ Size1 > cs.SP                      \* predictedLen > SplitEventSize
-IsEnd == F0.fin                                                \* fragment ends with the escaped newline
+\* "logFragment[len-3:len-1] == `\n`": the last two escaped bytes; true for every final chunk, and (D20) for a
+\* partial chunk that ends with an escaped backslash followed by the letter n
+IsEnd == F0.fin \/ (D20_BackslashNIsEnd /\ F0.k = "n")
+DevStep == dev' = dev \cup (IF D20_BackslashNIsEnd /\ F0.k = "n" /\ ~F0.fin THEN {"D20"} ELSE {})
 Panics == D12_EmptyLogPanics /\ F0.k = "e" /\ ~F0.fin          \* logFragment = `""`: [-1:1]
 
 \* resetLogBuf(): eventBuf = eventBuf[:1]; eventSize = 0; cutOffEvent = false   (NOT skipNextEvent)
@@ -175,7 +187,8 @@ DoSkipWait ==
 DoSkipEnd ==
   /\ CanStep /\ ~Panics /\ IsEnd /\ skipNext /\ ~cutOff
   /\ skipNext' = FALSE /\ Reset /\ blocked' = FALSE /\ i' = i + 1
-  /\ UNCHANGED <<cs, to, out, dev, pc>>
+  /\ DevStep
+  /\ UNCHANGED <<cs, to, out, pc>>
 
 (* final chunk (or forced split): put the accumulated text into this event's log, ActionPass *)
 DoEmit ==
@@ -187,7 +200,8 @@ DoEmit ==
             IN out' = Append(out, [c |-> K, parts |-> nb])
        ELSE out' = Append(out, [c |-> K, parts |-> <<[id |-> K, take |-> ELen(F0)]>>])   \* log left as it is
   /\ Reset /\ blocked' = FALSE /\ i' = i + 1
-  /\ UNCHANGED <<cs, to, dev, pc>>
+  /\ DevStep
+  /\ UNCHANGED <<cs, to, pc>>
 
 (* stream time-out while waiting for the next chunk *)
 Timeout ==
@@ -215,7 +229,7 @@ Spec == Init /\ [][Next]_vars
 -----------------------------------------------------------------------------
 (* ---------------- properties of the transcription ---------------- *)
 TypeOK == /\ pc \in {"run", "done", "panic"} /\ i \in 0..Len(cs.seq) /\ to \subseteq 0..Len(cs.seq)
-          /\ dev \subseteq {"D12", "D16", "D17"}
+          /\ dev \subseteq {"D12", "D16", "D17", "D20"}
 
 \* the slices taken by the code stay in range (apart from D12)
 CutInRange == \A n \in 1..Len(eventBuf) : eventBuf[n].take >= 0
@@ -230,7 +244,7 @@ StatementOK == dev = {} => AllRunsOK(Consumed, to, out, FALSE)
 ResidualOK == (dev \subseteq {"D16"}) => AllRunsOK(Consumed, to, out, TRUE)
 
 DevSwitched == /\ ("D12" \in dev => D12_EmptyLogPanics) /\ ("D16" \in dev => D16_TimeoutDropsPartials)
-               /\ ("D17" \in dev => D17_SkipSurvivesTimeout)
+               /\ ("D17" \in dev => D17_SkipSurvivesTimeout) /\ ("D20" \in dev => D20_BackslashNIsEnd)
 
 -----------------------------------------------------------------------------
 (* export *)
